@@ -47,6 +47,11 @@ Inductive lexp :=
 | LReverse (l : lexp)            (* l.reverse() *)
 | LForce (l : lexp)              (* l.eval() *)
 | LGuard (v : sexp) (l : lexp)   (* l.map(e->e+0%(e-v)): lazy; the closure fails (modulo by zero) on elements equal to v *)
+| LStage (st : stage) (a b : lexp) (* the stateful lazy stages of Heap/ListHeap.v: a.merge(b,(x,y)->x<y), a.cross(b,(x,y)->x+y),
+                                    a.combine((x,y)->x+y), combine3, combineN(2,w->w.sum()), compact((x,y)->x=y), number((i,e)->i+e),
+                                    iir(e->e,(i,o)->o+i), iirCombine(e->e,(i0,i1,o)->o+i1); the one-list stages are written with b = a
+                                    and evaluate their receiver once *)
+| LOrder (l : lexp)              (* l.order(e->e): CopyToSlice (materialises the receiver), sort, NewList *)
 with zexp :=
 | ZS (e : sexp)
 | ZAdd (a b : zexp)
@@ -57,7 +62,10 @@ with zexp :=
 | ZFirst (l : lexp)              (* l.first() *)
 | ZThrow                         (* throw("t") *)
 | ZTry (a b : zexp)              (* try a catch b *)
-| ZIfLt (a b t e : zexp).        (* if a<b then t else e *)
+| ZIfLt (a b t e : zexp)         (* if a<b then t else e *)
+| ZCall (a b : sexp) (x : zexp). (* (y->y*a+b)(x): a closure object created by THIS evaluation, capturing the values a and b
+                                    (its arguments) in a context of its own (createClosureLiteralFunc: make([]V, n) per
+                                    creation), applied once: nothing of it outlives the evaluation *)
 
 Inductive def :=
 | DL (e : lexp)                  (* let c_k = e;          e closed: folded to a constant object at Generate time *)
@@ -134,6 +142,8 @@ Definition first_ok (xs : list Z) : option Z :=
   match xs with [] => None | x :: _ => if is_poison x then None else Some x end.
 Definition pull (j : nat) (xs : list Z) : outcome := if poisoned (firstn j xs) then OErr else OList (firstn j xs).
 
+Definition one_list_stage (st : stage) : bool := match st with StMerge | StCross => false | _ => true end.
+
 (* allocate: perform op, hand the id of the object it created to the continuation *)
 Definition alloc {R} (mk : heap -> op) (k : option nat -> script R) : script R :=
   Do (fun h => (step h (mk h), k (Some (nobjs h)))).
@@ -167,6 +177,14 @@ Fixpoint sc_l {R} (en : env) (e : lexp) (k : option nat -> script R) {struct e} 
   | LForce l => sc_l en l (fun rl => match rl with None => k None | Some a =>
         Do (fun h => if poisoned (icontent h a) then (h, k None) else (step h (force_op (e_cp en) h a), k (Some a))) end)
   | LGuard v l => sc_l en l (fun rl => match rl with None => k None | Some a => alloc (fun _ => OGuard (ev_s en v) a) k end)
+  | LStage st a b =>
+      if one_list_stage st then
+        sc_l en a (fun ra => match ra with None => k None | Some x => alloc (fun _ => OStage st x x) k end)
+      else
+        sc_l en a (fun ra => match ra with None => k None | Some x =>
+          sc_l en b (fun rb => match rb with None => k None | Some y => alloc (fun _ => OStage st x y) k end) end)
+  | LOrder l => sc_l en l (fun rl => match rl with None => k None | Some a =>
+        alloc_eval a (fun h => OOrder a (c_eval (e_cp en) (length (icontent h a)))) k end)
   end
 with sc_z {R} (en : env) (e : zexp) (k : option Z -> script R) {struct e} : script R :=
   match e with
@@ -195,6 +213,7 @@ with sc_z {R} (en : env) (e : zexp) (k : option Z -> script R) {struct e} : scri
       sc_z en a (fun ra => match ra with None => k None | Some x =>
         sc_z en b (fun rb => match rb with None => k None | Some y =>
           if (x <? y)%Z then sc_z en t k else sc_z en e k end) end)
+  | ZCall a b x => sc_z en x (fun rx => match rx with None => k None | Some v => k (Some (v * ev_s en a + ev_s en b)%Z) end)
   end.
 
 (* Generate: the definitions are folded in order; every folded list is a new constant object.  A definition
@@ -326,6 +345,11 @@ Fixpoint sp_l (se : senv) (e : lexp) : option (list Z) :=
   | LReverse l => match sp_l se l with None => None | Some xs => if poisoned xs then None else Some (rev xs) end
   | LForce l => match sp_l se l with None => None | Some xs => if poisoned xs then None else Some xs end
   | LGuard v l => match sp_l se l with None => None | Some xs => Some (map (guard_elem (sp_s se v)) xs) end
+  | LStage st a b =>
+      if one_list_stage st then match sp_l se a with None => None | Some xs => Some (stage_sem st xs xs) end
+      else match sp_l se a with None => None | Some xs =>
+             match sp_l se b with None => None | Some ys => Some (stage_sem st xs ys) end end
+  | LOrder l => match sp_l se l with None => None | Some xs => if poisoned xs then None else Some (sort_vals xs) end
   end
 with sp_z (se : senv) (e : zexp) : option Z :=
   match e with
@@ -343,6 +367,7 @@ with sp_z (se : senv) (e : zexp) : option Z :=
   | ZIfLt a b t e => match sp_z se a with None => None | Some x =>
                        match sp_z se b with None => None | Some y =>
                          if (x <? y)%Z then sp_z se t else sp_z se e end end
+  | ZCall a b x => match sp_z se x with None => None | Some v => Some (v * sp_s se a + sp_s se b)%Z end
   end.
 
 Definition sp_body (se : senv) (b : body) (j : nat) : outcome :=
